@@ -31,7 +31,7 @@ def plan(tier, seed):
     hel = fixture_names("helicity")
     skip_equiv = ("psi2s", "lambdab")
     for name in hel:
-        for k in range(2 if tier == "quick" else 6):
+        for k in ((0, 3) if tier == "quick" else range(6)):
             cases.append({"kind": "sign", "reaction": {"kind": "fixture", "name": name}, "naming": k, "seed": int(rng.integers(1 << 30)), "cost": 3.0})
         if not name.startswith(skip_equiv) or tier == "thorough":
             cases.append({"kind": "equiv", "reaction": {"kind": "fixture", "name": name[:-4]}, "seed": int(rng.integers(1 << 30)), "cost": 8.0})
@@ -39,7 +39,7 @@ def plan(tier, seed):
     for k in range(n_syn):
         desc = {"kind": "synth", "seed": int(rng.integers(1 << 30)), "n_final": [2, 3, 3, 4, 3, 4, 3, 5][k % 8], "max_spin2": 4 if k % 3 else 6,
                 "shuffle_names": k % 4 >= 2}
-        cases.append({"kind": "sign", "reaction": desc, "naming": k % 4, "seed": int(rng.integers(1 << 30)), "cost": 2.5})
+        cases.append({"kind": "sign", "reaction": desc, "naming": k % 6, "seed": int(rng.integers(1 << 30)), "cost": 2.5})
         if k % 2 == 0:
             cases.append({"kind": "equiv", "reaction": desc, "seed": int(rng.integers(1 << 30)), "cost": 6.0})
     return cases
@@ -73,13 +73,24 @@ def _synth(desc, formalism):
     return None
 
 
-def _formulate(ctx, reaction, naming=None, couplings=False):
+def _set_naming(b, naming, defaults=None):
+    flags = naming or defaults   # None: the defaults of this builder's name generator (helicity and canonical differ)
+    if flags is None:
+        return
+    b.naming.insert_parent_helicities = flags["parent"]
+    b.naming.insert_child_helicities = flags["child"]
+
+
+def _formulate(ctx, reaction, naming=None, couplings=False, history=None):
     from ampform import get_builder
     ctx["log"].clear()
     b = get_builder(reaction)
-    if naming:
-        b.naming.insert_parent_helicities = naming["parent"]
-        b.naming.insert_child_helicities = naming["child"]
+    defaults = {"parent": b.naming.insert_parent_helicities, "child": b.naming.insert_child_helicities}
+    for earlier in (history or []):   # earlier formulate() calls of the *same* builder under other naming flags
+        _set_naming(b, earlier, defaults)
+        b.formulate()
+        ctx["log"].clear()
+    _set_naming(b, naming, defaults if history else None)
     model = b.formulate()
     return model, list(ctx["log"].records)
 
@@ -135,14 +146,17 @@ def run_case(case, rec, ctx):
             return
         # helicities of the children must be part of the name: otherwise chains share a coefficient because the name
         # ignores helicities, not because they are parity partners (out of the statement's scope)
-        naming = [None, {"parent": False, "child": True}, {"parent": True, "child": True}, None][case["naming"] % 4]
-        model, records = _formulate(ctx, reaction, naming)
+        naming, history = [(None, None), ({"parent": False, "child": True}, None), ({"parent": True, "child": True}, None),
+                           # builder histories: the same builder formulated under other flags before
+                           ({"parent": True, "child": True}, [None]), (None, [{"parent": True, "child": True}]),
+                           (None, [{"parent": False, "child": False}, {"parent": True, "child": True}])][case["naming"] % 6]
+        model, records = _formulate(ctx, reaction, naming, history=history)
         chains, _, _ = _chain_values(model, records, rng)
         rec.hit("judge:sign")
         groups: dict = {}
         for c in chains:
             groups.setdefault(c["coeff"], []).append(c)
-        feats = {"n_constrained_nodes": len(constrained), "naming": str(naming), "kind": desc["kind"],
+        feats = {"n_constrained_nodes": len(constrained), "naming": str(naming), "kind": desc["kind"], "builder_history": len(history or []),
                  "unlike_eta": len({etas[n] for n in constrained if etas[n] is not None}) > 1}
         max_share = max((len(g) for g in groups.values()), default=0)
         n_pairs = 0
